@@ -622,7 +622,7 @@ pub fn run(ctx: &Ctx, replay: Option<&str>) {
         try_assemble(".external G0\n.external BAR\n.orig x0000\n.fill G0\n.fill BAR\n.end\n", true).expect("partner 5"),
     ];
     // ---- generated programs -> objects
-    let nprog = ctx.n(160, 2400) as usize;
+    let nprog = ctx.n(160, 1400) as usize;
     let slots: Vec<std::sync::Mutex<Vec<(ObjectFile, &'static str)>>> = (0..nprog).map(|_| Default::default()).collect();
     par_for(nprog, |k| {
         let mut r = root.fork(k as u64);
@@ -691,7 +691,7 @@ pub fn run(ctx: &Ctx, replay: Option<&str>) {
         }
     });
     // ---- synthetic specs and raw noise
-    let nsyn = ctx.n(1500, 40000) as usize;
+    let nsyn = ctx.n(1500, 30000) as usize;
     par_for(nsyn, |k| {
         let mut r = root.fork((3 << 40) + k as u64);
         let mut s = random_spec(&mut r);
